@@ -292,8 +292,12 @@ Proof.
   intros s2 acc [Hs2 _]. cbv beta. destruct (po_mode o); try (apply wp_trash_file; exact Hs2).
   destruct acc; [|apply wp_trash_file; exact Hs2].
   apply wp_bind. eapply wp_mono; [| |apply (wp_plain k _ (fun _ => True) s2 (safe_describe PPL ppl_ok path) Hs2)]; [|auto].
-  intros s3 d [Hs3 _]. cbv beta. apply wp_bind. apply wp_call_str. intros r Hv. exists s3. split; [reflexivity|].
-  destruct r; try exact I. destruct (parse_user_reply s0); [apply wp_trash_file; exact Hs3|apply wp_ret; exact Hs3].
+  intros s3 d [Hs3 _]. cbv beta. apply wp_bind. apply wp_catch. apply wp_call_str. intros r Hv. exists s3. split; [reflexivity|].
+  assert (Hno : wp put_step (if parse_user_reply [] then trash_file path o else Ret true)
+                   (fun s' ok => if ok then Inv k s' else Inv (S k) s') (fun _ _ => True) s3) by (apply wp_ret; exact Hs3).
+  destruct r as [| |reply| | | | |e]; try exact I.
+  - destruct (parse_user_reply reply); [apply wp_trash_file; exact Hs3|apply wp_ret; exact Hs3].
+  - destruct e; try exact I. apply wp_ret. exact Hno.
 Qed.
 
 Lemma wp_trash_each o : forall paths k s, Inv k s ->
